@@ -89,13 +89,13 @@ type doc struct {
 	composite []index.CompositeField
 }
 
-func (d *doc) ID() string                 { return d.id }
-func (d *doc) Size() int                  { return 0 }
-func (d *doc) NumPlainTextBytes() uint64  { return 0 }
-func (d *doc) StoredFieldsBytes() uint64  { return 0 }
-func (d *doc) AddIDField()                {}
-func (d *doc) Indexed() bool              { return true }
-func (d *doc) HasComposite() bool         { return len(d.composite) > 0 }
+func (d *doc) ID() string                { return d.id }
+func (d *doc) Size() int                 { return 0 }
+func (d *doc) NumPlainTextBytes() uint64 { return 0 }
+func (d *doc) StoredFieldsBytes() uint64 { return 0 }
+func (d *doc) AddIDField()               {}
+func (d *doc) Indexed() bool             { return true }
+func (d *doc) HasComposite() bool        { return len(d.composite) > 0 }
 func (d *doc) VisitFields(v index.FieldVisitor) {
 	for _, f := range d.fields {
 		v(f)
@@ -127,15 +127,15 @@ type field struct {
 	freqs index.TokenFrequencies
 }
 
-func (f *field) Name() string                                    { return f.name }
-func (f *field) Value() []byte                                   { return f.value }
-func (f *field) ArrayPositions() []uint64                        { return f.ap }
-func (f *field) EncodedFieldType() byte                          { return f.typ }
-func (f *field) Analyze()                                        {}
-func (f *field) Options() index.FieldIndexingOptions             { return f.opts }
-func (f *field) AnalyzedLength() int                             { return f.alen }
+func (f *field) Name() string                                     { return f.name }
+func (f *field) Value() []byte                                    { return f.value }
+func (f *field) ArrayPositions() []uint64                         { return f.ap }
+func (f *field) EncodedFieldType() byte                           { return f.typ }
+func (f *field) Analyze()                                         {}
+func (f *field) Options() index.FieldIndexingOptions              { return f.opts }
+func (f *field) AnalyzedLength() int                              { return f.alen }
 func (f *field) AnalyzedTokenFrequencies() index.TokenFrequencies { return f.freqs }
-func (f *field) NumPlainTextBytes() uint64                       { return 0 }
+func (f *field) NumPlainTextBytes() uint64                        { return 0 }
 
 type compField struct{ field }
 
@@ -160,9 +160,9 @@ type vecField struct {
 	opt  string
 }
 
-func (f *vecField) Vector() []float32        { return f.vec }
-func (f *vecField) Dims() int                { return f.dims }
-func (f *vecField) Similarity() string       { return f.sim }
+func (f *vecField) Vector() []float32         { return f.vec }
+func (f *vecField) Dims() int                 { return f.dims }
+func (f *vecField) Similarity() string        { return f.sim }
 func (f *vecField) IndexOptimizedFor() string { return f.opt }
 
 func buildField(sf Field) field {
